@@ -170,13 +170,14 @@ class SlopeTransformer(_PanelToPanelTransformer):
         -------
         output : a numpy array of shape = [num_intervals,interval_size]
         """
-        avg = len(X) / float(self.num_intervals)
+        # integer arithmetic: accumulating a float step can end just below
+        # len(X) and produce a spurious extra segment
+        n_timepoints = len(X)
         output = []
-        beginning = 0.0
-
-        while beginning < len(X):
-            output.append(X[int(beginning) : int(beginning + avg)])
-            beginning += avg
+        for i in range(self.num_intervals):
+            start = (i * n_timepoints) // self.num_intervals
+            end = ((i + 1) * n_timepoints) // self.num_intervals
+            output.append(X[start:end])
 
         return output
 
